@@ -469,3 +469,21 @@ def run(ctx):
     check_control(ctx)
     check_data_gate(ctx)
     check_wiring(ctx)
+    shared(ctx, "C05.P5", transactions=True)
+
+
+def shared(ctx, rule, transactions=False):
+    """Necessary conditions owned by C09/C06 that this property needs as well: a lost link leaves no bytes of a partial
+    frame behind (they would shift the framing of the next connection, whose Select.req is then never answered), and -
+    for the session - a finished control transaction leaves no registered waiter behind."""
+    from . import c06, c09
+
+    sub = type(ctx)(ctx.prop, ctx.tier, ctx.seed, ctx.repo)
+    c09.check_on_disconnected(sub)
+    if transactions:
+        c06.check_requests(sub)
+    for o in sub.obligations:
+        if (o["key"] in ("receive buffer clear", "thread stop") and o["construct"].startswith("HsmsProtocol")) or (transactions and o["rule"] == "C06.P1" and o["construct"].startswith("HsmsProtocol.send_")):
+            o = dict(o)
+            o["rule"] = rule
+            ctx.obligations.append(o)
